@@ -6,6 +6,8 @@
 // case  := (seq|strict) n <N> m <M> cap <C> ops <op>*            one history, one snapshot at the end
 //
 //	| par n <N> m <M> cap <C> ops <op>* (th <op>*)+          prefix, then the th-blocks run concurrently
+//	| race n <N> m <M> cap <C> ops <op>* th <op>* th <op>*   prefix; block 1 runs until it is inside UpdateAuth
+//	             (gated logger), then block 2 runs; the outcome must be one of the two orders
 //
 // op    := A c        AcceptConnection with transport c; an id in use is refused (real call), an id whose
 //
@@ -166,6 +168,7 @@ type world struct {
 	timedOut    atomic.Bool
 	streamRace  atomic.Bool // a panic inside StreamProcessor (Close racing WritePacket): not a registry fact
 	cc          *cloudCtl
+	lg          *gateLogger
 	adp         bool // adapter mode: packets and teardown go through the real read loop
 	ctx         context.Context
 	loops       []chan struct{} // adapter mode: done channel of connection c's handleConnection goroutine
@@ -233,10 +236,37 @@ func (a *authH) GetClientConfig(conn session.ControlConnectionInterface) (string
 
 func cid(c int) string { return "c" + strconv.Itoa(c) }
 
+// ---- gated logger: ClientRegistry takes its logger from corelog.Default() when the SessionManager is
+// built.  UpdateAuth's "connection authenticated" line is the one injectable call inside UpdateAuth; when armed,
+// the first such line signals `reached` and waits for `release` (race cases).
+
+type gateLogger struct {
+	corelog.NopLogger
+	armed   atomic.Bool
+	reached chan struct{}
+	release chan struct{}
+}
+
+func (l *gateLogger) Infof(format string, args ...interface{}) {
+	if strings.HasPrefix(format, "ClientRegistry: connection authenticated") && l.armed.CompareAndSwap(true, false) {
+		close(l.reached)
+		<-l.release
+	}
+}
+
+var newWorldMu sync.Mutex
+
 func newWorld(n, m, capc int, adp bool) *world {
 	ctx, cancel := context.WithCancel(context.Background())
 	st := storage.NewMemoryStorage(ctx)
 	idm := idgen.NewIDManager(st, ctx)
+	lg := &gateLogger{reached: make(chan struct{}), release: make(chan struct{})}
+	newWorldMu.Lock()
+	corelog.SetDefault(lg)
+	defer func() {
+		corelog.SetDefault(corelog.NewNopLogger())
+		newWorldMu.Unlock()
+	}()
 	sm := session.NewSessionManagerWithConfig(idm, ctx, &session.SessionConfig{
 		HeartbeatTimeout:      time.Hour,
 		CleanupInterval:       time.Hour,
@@ -256,6 +286,7 @@ func newWorld(n, m, capc int, adp bool) *world {
 	w.adp = adp
 	w.ctx = ctx
 	w.loops = make([]chan struct{}, n)
+	w.lg = lg
 	return w
 }
 
@@ -874,7 +905,9 @@ func runCaseOnce(tc *tcase) (string, bool) {
 				w.settleLoops()
 			}
 		}
-		if len(tc.threads) > 0 {
+		if tc.kind == "race" && len(tc.threads) == 2 {
+			w.race(tc.threads[0], tc.threads[1])
+		} else if len(tc.threads) > 0 {
 			var wg sync.WaitGroup
 			start := make(chan struct{})
 			for _, th := range tc.threads {
@@ -898,6 +931,49 @@ func runCaseOnce(tc *tcase) (string, bool) {
 		return s, strings.HasPrefix(s, "panic-in-stream-layer")
 	case <-time.After(30 * time.Second):
 		return "timeout", false
+	}
+}
+
+// race: block a runs until its first UpdateAuth reaches the "connection authenticated" log line (on the current
+// tree: inside the write-locked section, after the index was written); then block b runs on another goroutine.
+// If b cannot finish while a is parked (it needs the registry lock a holds) the gate is released after a short wait,
+// so on a tree where UpdateAuth is atomic the outcome is the order a;b. If the lookup and the indexing of UpdateAuth
+// were ever separated, b lands between them.
+func (w *world) race(a, b []op) {
+	w.lg.armed.Store(true)
+	aDone := make(chan struct{})
+	go func() {
+		defer close(aDone)
+		for _, o := range a {
+			w.exec(o, false)
+		}
+	}()
+	select {
+	case <-w.lg.reached:
+	case <-aDone:
+	case <-time.After(10 * time.Second):
+		w.timedOut.Store(true)
+	}
+	bDone := make(chan struct{})
+	go func() {
+		defer close(bDone)
+		for _, o := range b {
+			w.exec(o, false)
+		}
+	}()
+	select {
+	case <-bDone:
+	case <-time.After(25 * time.Millisecond):
+	}
+	if !w.lg.armed.CompareAndSwap(true, false) {
+		close(w.lg.release) // a is (or was) parked at the line
+	}
+	for _, ch := range []chan struct{}{aDone, bDone} {
+		select {
+		case <-ch:
+		case <-time.After(10 * time.Second):
+			w.timedOut.Store(true)
+		}
 	}
 }
 
@@ -1271,9 +1347,40 @@ func genWindow(jobs *[]*job) {
 	}
 }
 
+// race cases: a handshake of connection 0 parked inside UpdateAuth against one registry operation that
+// evicts, removes or closes that same connection (or re-registers at the limit), after every short prefix
+func genRace(jobs *[]*job, thorough bool) {
+	preAl := []op{{k: "HS", a: 0, b: 1, t: "c"}, {k: "HS", a: 1, b: 1, t: "c"}, {k: "HS", a: 1, b: 2, t: "c"}, {k: "O", a: 0}}
+	var pres [][]op
+	pres = append(pres, nil)
+	for _, p := range preAl {
+		pres = append(pres, []op{p})
+		if thorough {
+			for _, q := range preAl {
+				pres = append(pres, []op{p, q})
+			}
+		}
+	}
+	bs := []op{{k: "R", a: 0}, {k: "X", a: 0}, {k: "U", a: 0}, {k: "S"}, {k: "K", a: 1, b: 2}, {k: "K", a: 2, b: 2},
+		{k: "G", a: 1, b: 0}, {k: "HS", a: 1, b: 1, t: "c"}, {k: "HS", a: 1, b: 2, t: "c"}, {k: "XF", a: 0}}
+	for _, capc := range []int{0, 1} {
+		for _, pre := range pres {
+			for x := 1; x <= 2; x++ {
+				for _, b := range bs {
+					p := append([]op{{k: "A", a: 0}, {k: "A", a: 1}}, pre...)
+					tc := &tcase{kind: "race", n: 2, m: 2, capc: capc, pre: p,
+						threads: [][]op{{{k: "HS", a: 0, b: x, t: "c"}}, {b}}}
+					*jobs = append(*jobs, mkJob(tc, ""))
+				}
+			}
+		}
+	}
+}
+
 func gen(out *vc.Out, r *vc.Rand, thorough bool) {
 	var jobs []*job
 	genWindow(&jobs)
+	genRace(&jobs, thorough)
 	if thorough {
 		genExhaustive(&jobs, "seq", 3, 2, 0, 4, true)
 		genExhaustive(&jobs, "seq", 3, 2, 2, 3, true)
